@@ -14,7 +14,7 @@ GARBAGE = {"OUT1": 99.0, "OUT2": 1, "OUT3": 77.0}      # what the device holds b
 SAFE = {"OUT1": 0.0, "OUT2": "Closed"}                  # tag-level safe values (OUT3 has none)
 SAFE_HW = {"OUT1": 0.0, "OUT2": 0}                      # the same after from_tag conversion
 OUTPUTS = ["OUT1", "OUT2", "OUT3"]
-UOD_COMMANDS = ["Set1", "Set3", "Ramp", "LongA", "LongB", "LongC", "Valve", "Boom", "BoomInit", "BadArgs"]
+UOD_COMMANDS = ["Set1", "Set3", "Ramp", "LongA", "LongB", "LongC", "Valve", "Boom", "BoomInit", "BadArgs", "Spin"]
 
 
 class SimHardware(HardwareLayerBase):
@@ -140,6 +140,12 @@ def build_probe_uod(hw: SimHardware, plog: ProbeLog, clock_read: Callable[[], fl
     def bad_args_parse(args: str):
         return None
 
+    def spin(cmd: UodCommand, **kw) -> None:
+        # a command without arguments that runs for four ticks: what a user starts with a button
+        plog.add("exec", cmd, "")
+        if cmd.get_iteration_count() + 1 >= 4:
+            cmd.set_complete()
+
     b = (
         UodBuilder()
         .with_instrument("ProbeUod")
@@ -180,6 +186,7 @@ def build_probe_uod(hw: SimHardware, plog: ProbeLog, clock_read: Callable[[], fl
         .with_command("Boom", boom, init_fn, fin_fn, arg_parse_fn=None)
         .with_command("BoomInit", noop_exec, boom_init, fin_fn, arg_parse_fn=None)
         .with_command("BadArgs", noop_exec, init_fn, fin_fn, arg_parse_fn=bad_args_parse)
+        .with_command("Spin", spin, init_fn, fin_fn, arg_parse_fn=None)
         .with_command_overlap(["LongA", "LongB"])
         .with_command_overlap(["LongB", "LongC"])       # LongB is declared in two overlap groups
         .with_process_value("PV1")
